@@ -12,6 +12,7 @@ import (
 
 	"github.com/pkg/errors"
 	"github.com/pkg/xattr"
+	"golang.org/x/sys/unix"
 )
 
 // NewLocalFS initializes a new instance of a local filesystem that
@@ -130,6 +131,15 @@ func (fs *LocalFS) CreateDevice(n NodeDevice) error {
 		return nil
 	}
 	return os.Chtimes(dst, n.MTime, n.MTime)
+}
+
+// setSymlinkTime sets the modification time of a symlink itself, not its target.
+func setSymlinkTime(name string, mtime time.Time) error {
+	ts, err := unix.TimeToTimespec(mtime)
+	if err != nil {
+		return err
+	}
+	return unix.UtimesNanoAt(unix.AT_FDCWD, name, []unix.Timespec{ts, ts}, unix.AT_SYMLINK_NOFOLLOW)
 }
 
 func mkdev(major, minor uint64) uint64 {
